@@ -3,7 +3,7 @@
 set -e
 P=$1; N=$2; D=/verif/seeded/$P-$N
 mkdir -p $D
-cp /tmp/mut/$P/out/patch.diff $D/patch.diff
-cp /tmp/mut/$P/out/demo.py $D/demo.py
-cp /tmp/mut/$P/out/notes.md $D/notes.md 2>/dev/null || true
+cp ${MUT:-/tmp/mut}/$P/out/patch.diff $D/patch.diff
+cp ${MUT:-/tmp/mut}/$P/out/demo.py $D/demo.py
+cp ${MUT:-/tmp/mut}/$P/out/notes.md $D/notes.md 2>/dev/null || true
 echo imported $D; wc -l $D/patch.diff
